@@ -139,7 +139,7 @@ func exporterDigest(a *Node, ctx sdk.Context, store string) string {
 }
 
 func (w *World) initFrom(appState []byte, height int64) (*Node, string) {
-	n := &Node{Idx: 100, Cfg: DefaultRefCfg(), DB: dbm.NewMemDB(), AppOpts: appOptsOf(&w.T.Knobs)}
+	n := &Node{Idx: 100, Cfg: DefaultRefCfg(), DB: newLeakDB(dbm.NewMemDB()), AppOpts: appOptsOf(&w.T.Knobs)}
 	n.Open()
 	req := abci.RequestInitChain{Time: w.Now, ChainId: ChainID, ConsensusParams: InitChainReq(nil).ConsensusParams, Validators: []abci.ValidatorUpdate{}, AppStateBytes: appState, InitialHeight: height}
 	p, _ := safely(func() { n.App.InitChain(req) })
@@ -155,7 +155,7 @@ func (w *World) initFrom(appState []byte, height int64) (*Node, string) {
 func (w *World) importKeepingGenesisTime(raw []byte, height int64) {
 	w.Probe("c15.import-keeping-genesis-time")
 	gt := time.Unix(GenesisTS, 0).UTC()
-	n := &Node{Idx: 102, Cfg: DefaultRefCfg(), DB: dbm.NewMemDB(), AppOpts: appOptsOf(&w.T.Knobs)}
+	n := &Node{Idx: 102, Cfg: DefaultRefCfg(), DB: newLeakDB(dbm.NewMemDB()), AppOpts: appOptsOf(&w.T.Knobs)}
 	n.Open()
 	req := abci.RequestInitChain{Time: gt, ChainId: ChainID, ConsensusParams: InitChainReq(nil).ConsensusParams, Validators: []abci.ValidatorUpdate{}, AppStateBytes: raw, InitialHeight: height}
 	if p, _ := safely(func() { n.App.InitChain(req) }); p != "" {
@@ -321,6 +321,7 @@ func (w *World) takeFork() {
 	if p == "" {
 		var raw2 []byte
 		if p2, _ := safely(func() {
+			b2.releaseDangling()
 			b2.App.Commit()
 			if mod, pp := exportPreflight(b2); mod != "" {
 				panic("genesis export of module " + mod + " panics: " + pp)
@@ -434,6 +435,7 @@ func (f *Fork) follow(w *World, rec *BlockRec) {
 		f.dead = true
 		return
 	}
+	b.releaseDangling()
 	if p, _ := safely(func() { b.App.Commit() }); p != "" {
 		w.Violate("C15", "C15/imported-chain-halts/Commit", "height %d: %s", rec.Height, trunc(p, 300))
 		f.dead = true
@@ -619,13 +621,14 @@ func (w *World) followShadow(rec *BlockRec) {
 			b.App.DeliverTx(abci.RequestDeliverTx{Tx: bz})
 		}
 		b.App.EndBlock(abci.RequestEndBlock{Height: rec.Height})
+		b.releaseDangling()
 		b.App.Commit()
 	}); p != "" {
 		sh.dead = true
 		return
 	}
 	w.Probe("shadow.block-followed")
-	wb := &World{T: w.T, Actors: w.Actors, Ref: b, Hdr: hdr, Now: w.Now, M: w.M, St: w.St, PropOverride: w.PropOverride, KnownClasses: w.KnownClasses, BlockIdx: w.BlockIdx, Log: w.Log}
+	wb := &World{IsShadow: true, T: w.T, Actors: w.Actors, Ref: b, Hdr: hdr, Now: w.Now, M: w.M, St: w.St, PropOverride: w.PropOverride, KnownClasses: w.KnownClasses, BlockIdx: w.BlockIdx, Log: w.Log}
 	for _, m := range w.Mons {
 		switch m.(type) {
 		case *monC07, *monC08, *monC09:
